@@ -10,6 +10,7 @@ import os
 import shutil
 import subprocess
 import sys
+import threading
 from concurrent.futures import ThreadPoolExecutor
 
 sys.path.insert(0, os.path.dirname(os.path.abspath(__file__)))
@@ -21,6 +22,7 @@ if args[:1] == ["-j"]:
     jobs = int(args[1])
     args = args[2:]
 todo = [m for m in MUTANTS if not args or m[0] in args]
+TESTS = threading.Lock()      # the repository's tests open fixed TCP ports: one run at a time
 
 
 def one(m):
@@ -38,8 +40,9 @@ def one(m):
             return mid, "no-unique-match", f"{src.count(old)} occurrences"
         open(f"{wt}/{path}", "w").write(src.replace(old, new, 1))
         env = dict(os.environ, PYTHONPATH=wt, PYTHONHASHSEED="0")
-        t = subprocess.run("/venv/bin/python -m pytest -q -x -p no:cacheprovider 2>&1 | tail -1", shell=True, cwd=wt,
-                           capture_output=True, text=True, env=env)
+        with TESTS:
+            t = subprocess.run("/venv/bin/python -m pytest -q -x -p no:cacheprovider 2>&1 | tail -1", shell=True, cwd=wt,
+                               capture_output=True, text=True, env=env)
         if "71 passed" not in t.stdout:
             return mid, "tests", t.stdout.strip()[:80]
         res = {}
